@@ -133,8 +133,16 @@ macro_rules! cm_ops {
                 }
                 match r {
                     Ok(s) => {
-                        slots[slot] = Some(s);
-                        vec![1]
+                        // a sketch of a signed counter type that holds a negative counter is outside the
+                        // model (non-negative counters): reported as 2 ("accepted, negative") and dropped
+                        let img = s.serialize();
+                        let negative = $cfg[0] >= 4 && img.len() > 24 && img[24..].chunks(8).any(|c| c.len() == 8 && c[7] & 0x80 != 0);
+                        if negative {
+                            vec![2]
+                        } else {
+                            slots[slot] = Some(s);
+                            vec![1]
+                        }
                     }
                     Err(_) => vec![ERR],
                 }
